@@ -8,6 +8,7 @@ HERE=$(cd "$(dirname "$0")" && pwd)
 VERIF=$(cd "$HERE/../../.." && pwd)
 [ -d "$WT" ] || git -C /repo worktree add --detach "$WT" HEAD >/dev/null 2>&1
 for d in "$@"; do
+  d=$(realpath "$d")
   name=$(basename "$d" .diff)
   git -C "$WT" checkout -- . && git -C "$WT" apply "$d" || { echo -e "$name\tAPPLY-FAILED" >> "$OUT"; continue; }
   log=/tmp/c15-selfcheck-$name.log
